@@ -215,6 +215,12 @@ def loop_domain(unit, cps):
         return "keys", it[2][0]
     if it[0] == "call":
         key = it[1]
+        if key[1] == "range" and len(it[2]) == 2 and it[2][0] == scan.self_field("keys"):
+            # `keys.range(..)`: the unbounded range is the whole set, in ascending order like iter()
+            r_ = it[2][1]
+            if r_[0] == "agg" and isinstance(r_[1], tuple) and r_[1][0] == "RangeFull":
+                return "keys", it[2][0]
+            return "keys-range", it
         if key == ("Indexer", "iter"):
             return "indexer", it[2][0]
         if key[1] == "enumerate":
@@ -223,7 +229,7 @@ def loop_domain(unit, cps):
             return "keys", it[2][0][2][0]
         if key[1] == "zip":
             return "zip", it
-        return key[1], it
+        return "call:" + key[1], it
     return None, it
 
 
